@@ -94,7 +94,7 @@ def params_new_keys(ctx, rep):
     return out, n
 
 
-def dt_level(ctx):
+def dt_level(ctx, interest=()):
     """abstract interpretation of prayer_times_dt with the policy layer replaced by its summary
     (a map with the six keys and free results - justified by R5.1 / the skeleton worlds)"""
     pl = ctx.role('policy_layer')
@@ -111,6 +111,7 @@ def dt_level(ctx):
             return ('map', None, tuple(items))
         return None
     eng.hooks['call'] = hook
+    eng.interest |= set(interest)
     dt = ctx.role('dt')
     args = eng.sym_args(dt)
     tree = eng.call_entry(dt, args)
